@@ -10,11 +10,11 @@ def run(ctx):
     sc.model_check(ctx, "C16")
     # 2. implementation -> model: seeded histories of the real staker code validated by Trace_Staker.tla (C16 getters)
     sc.binding_demo(ctx, "C16")
-    plan = [("e2", "f4,edges,random", 22 if q else 500, 60, 0),
-            ("e3", "edges,random", 8 if q else 250, 72, 1),
-            ("fine", "edges,random", 6 if q else 200, 50, 2),
-            ("e4", "edges,random", 6 if q else 200, 96, 3),
+    plan = [("e2", "f4,edges,random", 22 if q else 240, 60, 0),
+            ("e3", "edges,random", 8 if q else 120, 72, 1),
+            ("fine", "edges,random", 6 if q else 80, 50, 2),
+            ("e4", "edges,random", 6 if q else 80, 96, 3),
             # real transactions to the Staker contract on a real chain (EVM + staker.sol + packer, genesis stakers)
-            ("e2", "chain", 3 if q else 60, 80, 4)]
+            ("e2", "chain", 3 if q else 40, 80, 4)]
     sc.histories(ctx, "C16", plan)
     ctx.assumptions += sc.ASSUMPTIONS
